@@ -1363,6 +1363,12 @@ impl TypeChecker {
         let (ident, declaration) =
             self.resolve_module_part_of_path(scope, &mut idents)?;
 
+        // The path ends at the type: nothing can be named through an item
+        // that has no scope of its own (such as a type parameter).
+        if let Some(rest) = idents.next() {
+            return Err(self.error_not_defined(rest));
+        }
+
         match declaration.kind {
             DeclarationKind::Value(..)
             | DeclarationKind::Function(..)
